@@ -52,11 +52,12 @@ InitC02 == \E R \in RSet : \E P \in PSet : \E m \in MaskSet : \E d \in DesSet : 
 Des3(p, v) == CASE p = 1 -> <<1, 0, 0>>[v] [] p = 2 -> <<0, 0, 1>>[v] [] p = 3 -> <<1, 0, 1>>[v]
 InitC03 == \E R \in RSet : \E P \in PSet :
            \E fF \in SUBSET (1..R) : \E fP \in SUBSET ((1..R) \X (1..P)) : \E nc \in 1..3 :
-           \E ms \in 0..R : \E pms \in 1..P : \E fi \in {1, 2, 3} : \E e \in {1, 2} :
+           \E ms \in 0..R : \E pms \in 1..P : \E fi \in {1, 2, 3} : \E e \in {1, 2} : \E mg \in BOOLEAN :
              /\ (fF = {} /\ fP = {} => nc = 1)
+             /\ (mg => e = 1 /\ fi = 1)                       \* merged estimation: mean estimator, no filter
              /\ sc = [V |-> V, mask |-> Mask(2), x |-> X, R |-> R, P |-> P, rw |-> RW(R, 3), ow |-> <<3, 1>>,
                       est |-> EstOf(e), flt |-> FltOf(fi), a |-> Slopes(R, 1, FALSE), b |-> Offs(R),
-                      minsucc |-> ms, pms |-> pms, merged |-> FALSE, shared |-> TRUE, ident |-> FALSE,
+                      minsucc |-> ms, pms |-> pms, merged |-> mg, shared |-> TRUE, ident |-> FALSE,
                       nanF |-> [r \in 1..R |-> IF r \in fF THEN nc ELSE 0],
                       nanP |-> [r \in 1..R |-> [p \in 1..P |-> IF <<r, p>> \in fP THEN ((nc + p) % 3) + 1 ELSE 0]],
                       design |-> [r \in 1..R |-> [p \in 1..P |-> [v \in 1..V |-> Des3(p, v)]]],
